@@ -100,6 +100,18 @@ def judgeTooMany (parts : List Part) : String :=
   let hi := sumI (parts.map fun p => p.countRange.2)
   if hi > capTokens then "skip:too-many-tokens" else s!"fail:count:n>{capTokens} expected<={hi}"
 
+/-- `start=implicit`: the schedule was never told its start, the first `Next()` took `time.Now()` as the profile's start
+(`C01_implicit_start`). The harness reports offsets relative to a clock reading `before` taken just before that call and
+`slack` = the width of the bracket [before, after] around the call. The start is `s = fin − (expected length)` (an
+exhausted profile reports start + duration); it must lie inside the bracket; everything else is judged relative to it. -/
+def rebase (parts : List Part) (slack : Int) (o : Obs) : Except String Obs :=
+  let s := o.fin - sumI (parts.map Part.dur)
+  if s < 0 || s > slack then
+    .error s!"fail:start:never Start()ed: finish time minus the profile's length = {s} ns after the clock reading taken before the first Next(), which returned {slack} ns after it"
+  else
+    .ok { o with fin := o.fin - s, tmin := if o.n > 0 then o.tmin - s else o.tmin,
+                 tmax := if o.n > 0 then o.tmax - s else o.tmax, toks := o.toks.map fun (k, t) => (k, t - s) }
+
 def handle : Handler := fun input impl =>
   match parse (parseKV input) with
   | .bad => ("-", "fail:driver:unparsable input")
@@ -113,7 +125,13 @@ def handle : Handler := fun input impl =>
     else if sumI (parts.map fun p => p.countRange.2) > int64Max then ("-", "skip:more-than-int64-operations")
     else
       match parseObs (parseKV impl) with
-      | some obs => ("-", judge parts obs)
+      | some obs =>
+          match getI? (parseKV impl) "slack" with
+          | some slack =>
+              match rebase parts slack obs with
+              | .ok obs' => ("-", judge parts obs')
+              | .error e => ("-", e)
+          | none => ("-", judge parts obs)
       | none => ("-", s!"fail:crash:unparsable observation {impl.take 80}")
 
 end Pandora.Drv.C01
